@@ -158,6 +158,11 @@ def c04(run):
     hs += gen_histories(rng, "all", 150 if quick else 1500, 150 if quick else 2000, 12 if quick else 30,
                         contents={7: 1, 8: 1}, pids=(1, 2, 3))
     half = len(hs) // 2
+    # corpus for the related-pids universe (1 has suffix 2 and prefix 3, 4 is a case variant of 2): a pid that shares an
+    # object with a related pid survives the other's deletion
+    rel = [[{"op": "so", "p": a, "b": 7, "n": 1}, {"op": "so", "p": b, "b": 7, "n": 1}, {"op": "del", "p": a}, {"op": "ro", "p": b}]
+           for a in (1, 2, 3, 4) for b in (1, 2, 3, 4) if a != b]
+    hs = hs[:half] + rel + hs[half:]
     th = ["C04_referenced_object_stable_present", "C04_last_delete_removes", "C04_del_invalid_guard"]
     seq_project(run, "P-seq[C04]", hs[:half], step_oracles=(oracles.referenced_stable, oracles.last_delete_and_guard),
                 theorems=th, kernel_sample=5 if quick else 30, retrieve_bound=True)
